@@ -30,6 +30,7 @@ def mutants(prog):
         ("divergence key", Fm, "divergence", "div = value if div is None else div.add_(value)", "div = value if div is None else div.sub_(value)", "T5.jacobian"),
         ("add identity offdiag", Fm, "jacobian_dict", "if add_identity:", "if False:", "T5.jacobian"),
         ("fd spacing of the first item", Im, "spatial_derivatives", "fd_spacing = spacing[:, sdim]", "fd_spacing = spacing[0, sdim]", "T5.batch-spacing"),
+        ("bspline kernel cache ignores the stride", Im, "spatial_derivatives", "key = (s, d)", "key = d", "T5.bspline"),
     ]
     for name, mod, fn, old, new, expect in specs:
         ov = source_sub(prog, mod, fn, old, new)
